@@ -33,7 +33,8 @@ func (t TimeSpec) Text() []byte { return []byte(t.Time().Format(time.RFC3339Nano
 
 var Times = []TimeSpec{{0, 0, 0}, {100, 5, 0}, {1700000000, 123456789, 0}, {1700000000, 120000000, 330}, {1700000000, 999999999, -480},
 	{-62135596800, 0, 0} /* year 1 */, {253402300799, 999999999, 0} /* 9999-12-31T23:59:59.999999999Z */, {951782400, 500000000, 60}, {1, 1000, -1}, {-1, 0, 840}}
-var BadTimes = []TimeSpec{{253402300800, 0, 0} /* year 10000 */, {-62198755200, 0, 0} /* year -1 */, {253402300799, 999999999, 60} /* rolls into 10000 */}
+// out of range in every zone (a formatter that normalises the zone first must still fail)
+var BadTimes = []TimeSpec{{253402300800 + 86400, 0, 0} /* year 10000 */, {-62198755200, 0, 0} /* year -1 */, {253402300800 + 86400, 5, -300}}
 
 func GenTime(r *hc.Rand) TimeSpec {
 	switch x := r.Intn(20); {
